@@ -1516,6 +1516,27 @@ def compare(code, ref):
     return res, n
 
 
+def _norm_hole(e):
+    """`x.saturating_add(N)` prints the same numeral as `x+N` wherever the latter is defined (it only cannot overflow)"""
+    prev = None
+    while prev != e:
+        prev = e
+        e = re.sub(r"([\w$.\[\]]+)\.saturating_add\((\d+)\)", r"(\1+\2)", e)
+    return e
+
+
+def hole_equiv(c, r, val):
+    """semantic equality of two hole expressions under the branch valuation `val`"""
+    c, r = _norm_hole(c), _norm_hole(r)
+    if c == r:
+        return True
+    m = re.fullmatch(r"([\w$.\[\]]+)\.unsigned_abs\(\)", c)
+    # the magnitude of a negative x: `-x` and `x.unsigned_abs()` agree (the latter also at MIN)
+    if m and r == "-" + m.group(1) and (val or {}).get("c:%s,0" % m.group(1)) == "lt":
+        return True
+    return False
+
+
 def compare_atoms(ca, ra, val):
     out = []
     for i in range(max(len(ca), len(ra))):
@@ -1533,7 +1554,7 @@ def compare_atoms(ca, ra, val):
                 out.append(Mismatch("literal", val, seq_text(ra), seq_text(ca)))
                 return out
         elif isinstance(c, Hole):
-            if c.expr != r.expr:
+            if not hole_equiv(c.expr, r.expr, val):
                 out.append(Mismatch("hole-expr", val, r.text(), c.text(), "in %s" % seq_text(ca)))
                 return out
             if c.spec != r.spec:
